@@ -332,6 +332,13 @@ struct SrcInner {
     fired: Option<(u8, &'static str)>,
     /// the state the source was in when `timing()` was last asked in this step
     timing_asked_in: Option<(u16, u32)>,
+    /// ... and at every `timing()` call of this step (one per completed exchange)
+    timing_calls: Vec<(u16, u32)>,
+    /// `L<S>` event: move to this set on entry to the first call that follows
+    /// a `timing()` call, i.e. between two exchanges of `Client::run`
+    armed_after_timing: Option<u8>,
+    /// accessor sweep on the serving side (see `pdu_sweep`, `update`, `restart`)
+    api_faults: Vec<String>,
 }
 
 impl SrcInner {
@@ -340,7 +347,18 @@ impl SrcInner {
             if old != self.cur { self.collision = true }
         }
     }
+    /// The library's own way of moving a session on (`State::inc`, built on
+    /// `Serial::add`) must agree with the model's serial + 1 mod 2^32.
+    fn inc_check(&mut self) {
+        let mut st = State::from_parts(self.session, Serial(self.serial));
+        st.inc();
+        let added = Serial(self.serial).add(1);
+        if st.serial().0 != self.serial.wrapping_add(1) || added != st.serial() || st.session() != self.session {
+            self.api_faults.push(format!("State::inc() / Serial::add(1) from serial {} gave {} / {}", self.serial, st.serial(), added));
+        }
+    }
     fn update(&mut self, set: u8, keep_diff: bool) {
+        self.inc_check();
         if keep_diff {
             self.chain.push(self.cur);
             if self.chain.len() > self.cap { self.chain.remove(0); }
@@ -355,11 +373,17 @@ impl SrcInner {
     fn drop_diffs(&mut self) { self.chain.clear() }
     fn begin_step(&mut self, armed: Option<(u8, u8)>) {
         self.armed = armed; self.calls = 0; self.fired = None; self.timing_asked_in = None;
+        self.timing_calls.clear(); self.armed_after_timing = None;
     }
-    fn end_step(&mut self) { self.armed = None }
+    fn end_step(&mut self) { self.armed = None; self.armed_after_timing = None }
     /// Entry of every `PayloadSource` call.
     fn tick(&mut self, call: &'static str) {
         self.calls = self.calls.saturating_add(1);
+        if let (Some(set), false) = (self.armed_after_timing, self.timing_calls.is_empty()) {
+            self.armed_after_timing = None;
+            self.fired = Some((self.calls, call));
+            self.update(set, true);
+        }
         if let Some((k, set)) = self.armed {
             if self.calls == k {
                 self.armed = None;
@@ -369,6 +393,17 @@ impl SrcInner {
         }
     }
     fn restart(&mut self) {
+        // `State::new_with_serial` / `State::new` are how a source starts a
+        // session; their session id comes from the wall clock, so the model
+        // keeps its own id and only compares what must hold regardless.
+        let a = State::new_with_serial(Serial(RESTART_SERIAL));
+        let b = State::new();
+        let dflt = State::default();
+        if a.serial().0 != RESTART_SERIAL || b.serial().0 != 0 || dflt.serial().0 != 0
+            || b.session().wrapping_sub(a.session()) > 1 || dflt.session().wrapping_sub(b.session()) > 1
+            || State::from_parts(a.session(), a.serial()).serial() != a.serial() {
+            self.api_faults.push(format!("State::new_with_serial({RESTART_SERIAL}) = {a:?}, State::new() = {b:?}"));
+        }
         self.session = self.session.wrapping_add(1);
         self.serial = RESTART_SERIAL;
         self.epoch = 0;
@@ -406,6 +441,43 @@ fn net_diff(old: u8, new: u8) -> Vec<(Item, Action)> {
     out
 }
 
+/// Every payload the source serves is also turned into its PDU for every
+/// version that carries it; the PDU's by-value accessors (`into_key_info`,
+/// `into_providers`) must return what the by-reference ones return and what
+/// was put in, and `to_payload` must give the payload back.
+fn pdu_sweep(p: &Payload, action: Action, faults: &mut Vec<String>) {
+    use rpki::rtr::pdu;
+    for version in 0..=2u8 {
+        let Some(x) = pdu::Payload::new_if_supported(version, action.into_flags(), p.as_ref()) else { continue };
+        match x.to_payload() {
+            Ok((a, back)) => {
+                let same = match (&back, p, action) {
+                    (Payload::Aspa(b), Payload::Aspa(o), Action::Withdraw) => b.key() == o.key(),
+                    _ => back == *p,
+                };
+                if a != action || !same { faults.push(format!("PDU v{version} of {p:?} converts back to {a:?} {back:?}")) }
+            }
+            Err(_) => faults.push(format!("PDU v{version} of {p:?} does not convert back")),
+        }
+        match (x, p) {
+            (pdu::Payload::RouterKey(k), Payload::RouterKey(o)) => {
+                let by_ref = k.key_info().clone();
+                let by_val = k.into_key_info();
+                if by_ref != by_val || by_val != o.key_info { faults.push(format!("pdu::RouterKey::into_key_info() v{version} differs from key_info() / input")) }
+            }
+            (pdu::Payload::Aspa(k), Payload::Aspa(o)) => {
+                let by_ref = k.providers().clone();
+                let count = by_ref.asn_count();
+                let by_val = k.into_providers();
+                if by_ref != by_val || by_val != o.providers || count as usize != o.providers.iter().count() {
+                    faults.push(format!("pdu::Aspa::into_providers() v{version} differs from providers() / input"))
+                }
+            }
+            _ => {}
+        }
+    }
+}
+
 #[derive(Clone)]
 struct Source(Arc<Mutex<SrcInner>>);
 
@@ -440,7 +512,15 @@ impl PayloadSource for Source {
         let mut s = self.0.lock().unwrap();
         s.tick("full");
         (State::from_parts(s.session, Serial(s.serial)),
-         SetIter { items: { let mut v = SETS[s.cur as usize].to_vec(); s.order.sort_set(&mut v); v.into_iter().map(item_payload).collect() }, pos: 0 })
+         SetIter { items: {
+             let mut v = SETS[s.cur as usize].to_vec();
+             s.order.sort_set(&mut v);
+             let items: Vec<Payload> = v.into_iter().map(item_payload).collect();
+             let mut faults = Vec::new();
+             for p in &items { pdu_sweep(p, Action::Announce, &mut faults) }
+             s.api_faults.extend(faults);
+             items
+         }, pos: 0 })
     }
     fn diff(&self, state: State) -> Option<(State, DiffIter)> {
         let mut s = self.0.lock().unwrap();
@@ -460,12 +540,20 @@ impl PayloadSource for Source {
             },
         }
         Some((State::from_parts(s.session, Serial(s.serial)),
-              DiffIter { items: ops.into_iter().map(|(i, a)| (item_payload(i), a)).collect(), pos: 0 }))
+              DiffIter { items: {
+                  let items: Vec<(Payload, Action)> = ops.into_iter().map(|(i, a)| (item_payload(i), a)).collect();
+                  let mut faults = Vec::new();
+                  for (p, a) in &items { pdu_sweep(p, *a, &mut faults) }
+                  s.api_faults.extend(faults);
+                  items
+              }, pos: 0 }))
     }
     fn timing(&self) -> Timing {
         let mut s = self.0.lock().unwrap();
         s.tick("timing");
         s.timing_asked_in = Some((s.session, s.serial));
+        let at = (s.session, s.serial);
+        s.timing_calls.push(at);
         let t = timing_of(s.cur);
         Timing { refresh: t.0, retry: t.1, expire: t.2 }
     }
@@ -475,21 +563,74 @@ impl PayloadSource for Source {
 // The target (client side): applies announce/withdraw in order
 // ======================================================================
 
+/// What one `PayloadTarget::apply` call left behind (the library's own
+/// `Client::run` loop applies several updates before the harness gets the
+/// client back).
+#[derive(Clone, Debug, PartialEq, Eq)]
+struct ApplySnap { data: Data, timing: (u32, u32, u32), v4_ops: usize, v6_ops: usize }
+
 #[derive(Default)]
 struct Target {
     data: Data,
     reported_timing: Option<(u32, u32, u32)>,
     applies: u64,
+    /// one entry per apply since the harness last cleared it
+    applied: Vec<ApplySnap>,
+    /// accessor sweep: every payload and action handed over also goes through
+    /// the by-value / predicate / key accessors, which must say what the
+    /// fields and the sibling accessors say
+    api_faults: Vec<String>,
     /// informational: the update contained a withdrawal of something absent /
     /// an announcement of something present
     odd_withdraw: u64,
     odd_announce: u64,
 }
 
-struct Update { reset: bool, ops: Vec<(Action, Payload)> }
+struct Update { reset: bool, ops: Vec<(Action, Payload)>, faults: Vec<String>, fail: Option<PayloadError> }
+
+/// Differential accessor checks on one (action, payload) pair: no expected
+/// values are written down, every accessor is compared with its siblings.
+fn accessor_sweep(action: Action, p: &Payload, faults: &mut Vec<String>) {
+    use rpki::rtr::payload::PayloadType;
+    let by_variant = match (p.to_origin().is_some(), p.as_router_key().is_some(), p.as_aspa().is_some()) {
+        (true, false, false) => Some(PayloadType::Origin),
+        (false, true, false) => Some(PayloadType::RouterKey),
+        (false, false, true) => Some(PayloadType::Aspa),
+        _ => None,
+    };
+    if by_variant != Some(p.payload_type()) {
+        faults.push(format!("payload_type() = {:?} but to_origin/as_router_key/as_aspa say {by_variant:?}", p.payload_type()));
+    }
+    if action.is_withdraw() == action.is_announce() || action.is_withdraw() != (action == Action::Withdraw)
+        || Action::from_flags(action.into_flags()) != action {
+        faults.push(format!("Action accessors disagree for {action:?}"));
+    }
+    match p {
+        Payload::Origin(o) => {
+            if o.is_v4() != o.prefix.addr().is_ipv4() || o.is_v4() != o.prefix.prefix().is_v4() {
+                faults.push(format!("RouteOrigin::is_v4() = {} for {}", o.is_v4(), o.prefix.addr()));
+            }
+        }
+        Payload::RouterKey(k) => {
+            if k.key_info.clone().into_bytes().as_ref() != k.key_info.as_slice() {
+                faults.push("RouterKeyInfo::into_bytes() differs from as_slice()".into());
+            }
+        }
+        Payload::Aspa(a) => {
+            if a.key() != a.customer { faults.push(format!("Aspa::key() = {} but customer = {}", a.key(), a.customer)); }
+            if a.providers.asn_count() as usize != a.providers.iter().count() || a.providers.len() != 4 * a.providers.iter().count()
+                || a.providers.is_empty() != (a.providers.iter().count() == 0) {
+                faults.push(format!("ProviderAsns::asn_count() = {} but iter() yields {}", a.providers.asn_count(), a.providers.iter().count()));
+            }
+            let w = a.withdraw();
+            if w.key() != a.key() || !w.providers.is_empty() { faults.push("Aspa::withdraw() changed the key or kept providers".into()); }
+        }
+    }
+}
 
 impl PayloadUpdate for Update {
     fn push_update(&mut self, action: Action, payload: Payload) -> Result<(), PayloadError> {
+        accessor_sweep(action, &payload, &mut self.faults);
         self.ops.push((action, payload));
         Ok(())
     }
@@ -497,18 +638,23 @@ impl PayloadUpdate for Update {
 
 impl PayloadTarget for Target {
     type Update = Update;
-    fn start(&mut self, reset: bool) -> Update { Update { reset, ops: Vec::new() } }
+    fn start(&mut self, reset: bool) -> Update { Update { reset, ops: Vec::new(), faults: Vec::new(), fail: None } }
     fn apply(&mut self, update: Update, timing: Timing) -> Result<(), PayloadError> {
+        if let Some(err) = update.fail { return Err(err) }   // only the `E` event builds such an update
         if update.reset { self.data = Data::default() }
+        let (mut v4_ops, mut v6_ops) = (0, 0);
         for (action, payload) in &update.ops {
+            if let Payload::Origin(o) = payload { if o.is_v4() { v4_ops += 1 } else { v6_ops += 1 } }
             let e = payload_entry(payload);
             match action {
                 Action::Announce => if !self.data.announce(e) { self.odd_announce += 1 },
                 Action::Withdraw => if !self.data.withdraw(&e) { self.odd_withdraw += 1 },
             }
         }
+        self.api_faults.extend(update.faults);
         self.reported_timing = Some((timing.refresh, timing.retry, timing.expire));
         self.applies += 1;
+        self.applied.push(ApplySnap { data: self.data.clone(), timing: (timing.refresh, timing.retry, timing.expire), v4_ops, v6_ops });
         Ok(())
     }
 }
@@ -534,6 +680,10 @@ struct Obs {
     cut_after: Option<usize>,
     cut_count: usize,
     cut_fired: bool,
+    /// `L<S>` event: close the connection once this many End of Data PDUs
+    /// have been delivered
+    close_after_eods: Option<usize>,
+    eods_delivered: usize,
 }
 
 /// One end of a two-way link made of two one-way in-memory pipes, so that
@@ -719,6 +869,8 @@ async fn proxy_to_client(mut c_wr: DuplexStream, mut rx: tokio::sync::mpsc::Unbo
         let fire = {
             let mut o = obs.lock().unwrap();
             o.s2c[idx].delivered = true;
+            if f[1] == 7 { o.eods_delivered += 1 }
+            if o.close_after_eods.is_some_and(|n| f[1] == 7 && o.eods_delivered >= n) { o.cut_fired = true; break }
             match o.cut_after {
                 Some(k) if (f[1] == 3 && !o.s2c[idx].from_proxy) || o.cut_count > 0 => { o.cut_count += 1; o.cut_count >= k }
                 _ => false,
@@ -757,6 +909,10 @@ const ROOT_SERIAL0: u32 = 100;
 struct Cfg { civ: u8, limit: u8, mode: ProxyMode, style: Style, cap: u8, order: Order, link: Transport, init: Init }
 
 impl Cfg {
+    /// `Client::new` proposes version 2, like `with_initial_version(2, ..)`:
+    /// the civ = 2 roots are split between the two constructors (limit 0 and
+    /// 2: `new`; limit 1: `with_initial_version`), reconnects included.
+    fn uses_default_ctor(&self) -> bool { self.civ == 2 && self.limit != 1 }
     fn render(&self) -> String {
         format!("civ={} limit={} proxy={} style={} cap={} order={} link={} init={}", self.civ, self.limit,
             match self.mode { ProxyMode::ErrorReply => "error", ProxyMode::AnswerLower => "lower" },
@@ -811,6 +967,14 @@ enum Ev {
     /// to set S (serial + 1, diff retained) at the moment the server makes
     /// its k-th call on the source: `StepMid(k, S)`
     StepMid(u8, u8),
+    /// the library's own loop: `Client::run` until the peer closes the
+    /// connection, which it does after two completed updates; between the
+    /// two the source moves to set S. Every completed update is judged.
+    Run(u8),
+    /// the client reports an error to the server: `Client::send_error(e)` and
+    /// its sibling `Client::apply(update the target rejects with e)` for all
+    /// four `PayloadError`s; the connection is dead afterwards
+    ErrorReport,
 }
 
 impl Ev {
@@ -820,13 +984,16 @@ impl Ev {
             Ev::DropDiffs => "D".into(), Ev::Restart => "R".into(), Ev::Wrap => "W".into(),
             Ev::Notify => "N".into(), Ev::Step => "S".into(), Ev::StepCut(k) => format!("C{k}"),
             Ev::StepMid(k, s) => format!("M{k}:{s}"),
+            Ev::Run(s) => format!("L{s}"),
+            Ev::ErrorReport => "E".into(),
         }
     }
     fn parse(s: &str) -> Option<Ev> {
         let set = |t: &str| t.parse::<u8>().ok().filter(|x| (*x as usize) < SETS.len());
         match s {
             "D" => Some(Ev::DropDiffs), "R" => Some(Ev::Restart), "W" => Some(Ev::Wrap),
-            "N" => Some(Ev::Notify), "S" => Some(Ev::Step),
+            "N" => Some(Ev::Notify), "S" => Some(Ev::Step), "E" => Some(Ev::ErrorReport),
+            _ if s.starts_with('L') => set(&s[1..]).map(Ev::Run),
             _ if s.starts_with('U') => set(&s[1..]).map(Ev::Update),
             _ if s.starts_with('X') => set(&s[1..]).map(Ev::UpdateNoDiff),
             _ if s.starts_with('M') => {
@@ -855,7 +1022,7 @@ const CUTS: [u8; 3] = [1, 2, 3];
 
 /// The facts of a state that decide which events are enabled.
 #[derive(Clone, Debug, PartialEq, Eq)]
-struct Abs { cur: u8, chain_len: usize, epoch: u8, pending: usize }
+struct Abs { cur: u8, chain_len: usize, epoch: u8, pending: usize, established: bool }
 
 /// The calls a step can make on the source: ready, diff, [ready,] full,
 /// timing — at most five on the unchanged tree (a position the exchange
@@ -881,6 +1048,9 @@ fn enabled(abs: &Abs, thorough: bool) -> Vec<Ev> {
     let targets: Vec<u8> = if thorough { [6u8, 0, 5, 3].into_iter().filter(|s| *s != abs.cur).take(3).collect() }
         else { [6u8, 0, 1].into_iter().filter(|s| *s != abs.cur).take(2).collect() };
     for k in MID_CALLS { for &t in &targets { v.push(Ev::StepMid(k, t)) } }
+    for &t in targets.iter().take(if thorough { 2 } else { 1 }) { v.push(Ev::Run(t)) }
+    // on a fresh connection the first part of `E` would repeat the second
+    if abs.established { v.push(Ev::ErrorReport) }
     v
 }
 
@@ -1014,6 +1184,8 @@ struct Exec {
     panics: Vec<String>,
     machinery: Vec<String>,
     odd_ops: (u64, u64),
+    /// accessor-sweep disagreements collected anywhere in this history
+    api_faults: Vec<String>,
 }
 
 const HORIZON: Duration = Duration::from_secs(2 * 3600 + 100);
@@ -1045,7 +1217,9 @@ async fn connect(cfg: &Cfg, src: &Source, notify: &NotifySender, target: Target,
     tokio::spawn(proxy_to_client(pc_end.wr, rx, obs.clone()));
     let listener = futures_util::stream::iter(vec![Ok::<Sock, std::io::Error>(Sock { io: s_end, obs: obs.clone() })]);
     tokio::spawn(Server::new(listener, notify.clone(), src.clone()).run());
-    let client = Client::with_initial_version(cfg.civ, CSock { io: c_end, consumed: consumed.clone() }, target, state);
+    let sock = CSock { io: c_end, consumed: consumed.clone() };
+    let client = if cfg.uses_default_ctor() { Client::new(sock, target, state) }
+        else { Client::with_initial_version(cfg.civ, sock, target, state) };
     settle().await;
     Conn { client, obs, consumed, ok_steps: 0 }
 }
@@ -1056,6 +1230,7 @@ fn initial_source(cfg: &Cfg) -> SrcInner {
         chain: if cfg.init == Init::TwoBehindNoDiffs { vec![ROOT_SETS[1]] } else { vec![ROOT_SETS[0], ROOT_SETS[1]] },
         record: BTreeMap::new(), epoch: 0, style: cfg.style, order: cfg.order, cap: cfg.cap as usize, collision: false,
         armed: None, calls: 0, fired: None, timing_asked_in: None,
+        timing_calls: Vec::new(), armed_after_timing: None, api_faults: Vec::new(),
     };
     for (k, set) in ROOT_SETS.iter().enumerate() { s.record.insert((SESSION0, ROOT_SERIAL0 + k as u32), *set); }
     s
@@ -1127,7 +1302,7 @@ fn compute_key(cfg: &Cfg, src: &Source, conn: &Conn) -> (Key, Abs, Vec<String>) 
         cfg: (cfg.civ, cfg.limit, cfg.mode, cfg.style, cfg.cap, cfg.order, cfg.link), cur: s.cur, epoch: s.epoch, pos,
         data: conn.client.target().data.clone(), conn: connk, pending: pending.clone(),
     };
-    let abs = Abs { cur: s.cur, chain_len: s.chain.len(), epoch: s.epoch, pending: pending.len() };
+    let abs = Abs { cur: s.cur, chain_len: s.chain.len(), epoch: s.epoch, pending: pending.len(), established: conn.ok_steps > 0 };
     (key, abs, mach)
 }
 
@@ -1152,18 +1327,94 @@ async fn exec_async(cfg: Cfg, hist: Vec<Ev>) -> Exec {
             Ev::Restart => src.0.lock().unwrap().restart(),
             Ev::Wrap => src.0.lock().unwrap().wrap(),
             Ev::Notify => { notify.notify(); settle().await; }
-            Ev::Step | Ev::StepCut(_) | Ev::StepMid(..) => {
-                src.0.lock().unwrap().begin_step(if let Ev::StepMid(k, t) = *ev { Some((k, t)) } else { None });
+            Ev::ErrorReport => {
+                // `send_error(e)` and `apply(an update the target rejects with e)`
+                // are siblings: both must put the same Error Report on the wire
+                // and leave state and data alone. The server hangs up on an
+                // Error Report, so each gets its own connection.
+                const KINDS: [PayloadError; 4] = [PayloadError::Corrupt, PayloadError::Internal,
+                    PayloadError::UnknownWithdraw, PayloadError::DuplicateAnnounce];
+                let kind = KINDS[src.0.lock().unwrap().cur as usize % 4];
+                let state_before = conn.client.state().map(|s| (s.session(), s.serial().0));
+                let data_before = conn.client.target().data.clone();
+                let mut wire: Vec<Option<Frame>> = Vec::new();
+                let mut returns: Vec<String> = Vec::new();
+                // variant 0: send_error on the connection as it is (possibly
+                // with a negotiated version); variants 1 and 2: send_error and
+                // apply(rejected update), each on a fresh connection
+                let last_query_version = conn.obs.lock().unwrap().c2s.iter().rev().find(|f| f.typ == 1 || f.typ == 2).map(|f| f.ver);
+                for variant in 0..3 {
+                    if variant > 0 {
+                        let st = conn.client.state();
+                        let Conn { client, .. } = conn;
+                        let target = client.into_target();
+                        settle().await;
+                        conn = connect(&cfg, &src, &notify, target, st).await;
+                    }
+                    let m_c2s = conn.obs.lock().unwrap().c2s.len();
+                    let r = if variant < 2 {
+                        tokio::time::timeout(HORIZON, conn.client.send_error(kind)).await
+                    } else {
+                        let mut upd = conn.client.target_mut().start(false);
+                        upd.fail = Some(kind);
+                        tokio::time::timeout(HORIZON, conn.client.apply(upd)).await
+                    };
+                    returns.push(match r { Ok(Ok(())) => "Ok".into(), Ok(Err(e)) => format!("Err({:?})", e.kind()), Err(_) => "hang".into() });
+                    settle().await;
+                    wire.push(conn.obs.lock().unwrap().c2s.get(m_c2s).cloned());
+                }
+                {
+                    let st = conn.client.state();
+                    let Conn { client, .. } = conn;
+                    let target = client.into_target();
+                    settle().await;
+                    conn = connect(&cfg, &src, &notify, target, st).await;
+                }
+                let state_after = conn.client.state().map(|s| (s.session(), s.serial().0));
+                let data_after = conn.client.target().data.clone();
+                let mut verdicts: Vec<(&'static str, String)> = Vec::new();
+                let brief = |f: &Option<Frame>| f.as_ref().map(|f| (f.ver, f.typ, f.sess, f.body.clone()));
+                if wire[1].is_none() || wire[1] != wire[2] || wire[1].as_ref().is_some_and(|f| f.typ != 10) {
+                    verdicts.push(("C06.api.send_error", format!("on a fresh connection send_error({kind:?}) put {:?} on the wire, apply() of an update rejected with the same error put {:?}",
+                        brief(&wire[1]), brief(&wire[2]))));
+                }
+                // on the used connection: the same PDU but for the version octet,
+                // which is the one the client's queries on that connection carried
+                let same_but_version = match (&wire[0], &wire[1]) { (Some(a), Some(b)) => (a.typ, a.sess, &a.body) == (b.typ, b.sess, &b.body), _ => false };
+                if !same_but_version || last_query_version.is_some_and(|v| wire[0].as_ref().map(|f| f.ver) != Some(v)) {
+                    verdicts.push(("C06.api.send_error", format!("send_error({kind:?}) on a connection whose last query had version {last_query_version:?} put {:?} on the wire, on a fresh connection {:?}",
+                        brief(&wire[0]), brief(&wire[1]))));
+                }
+                if state_after != state_before || data_after != data_before {
+                    verdicts.push(("C06.api.send_error", format!("reporting {kind:?} changed the client: state {state_before:?} -> {state_after:?}, data {} -> {}", data_before.render(), data_after.render())));
+                }
+                steps.push(StepObs { result: StepResult::Err(format!("client reported {kind:?} (send_error -> {}, apply -> {})", returns[1], returns[2])),
+                    transcript: format!(">Errorv{}(code {})", wire[0].as_ref().map(|f| f.ver).unwrap_or(255), wire[0].as_ref().map(|f| f.sess).unwrap_or(999)),
+                    class: "error-report".into(), eod: None, state_after, data_after, reported_timing: conn.client.target().reported_timing,
+                    sim_ms: 0, changed: false, verdicts, negotiated: None, downgraded: false });
+            }
+            Ev::Step | Ev::StepCut(_) | Ev::StepMid(..) | Ev::Run(_) => {
+                let is_run = matches!(*ev, Ev::Run(_));
+                {
+                    let mut s = src.0.lock().unwrap();
+                    s.begin_step(if let Ev::StepMid(k, t) = *ev { Some((k, t)) } else { None });
+                    if let Ev::Run(t) = *ev { s.armed_after_timing = Some(t) }
+                }
+                conn.client.target_mut().applied.clear();
                 let (m_s2c, m_c2s) = {
                     let mut o = conn.obs.lock().unwrap();
                     if let Ev::StepCut(k) = *ev { o.cut_after = Some(k as usize); o.cut_count = 0; }
+                    if is_run { o.close_after_eods = Some(2); o.eods_delivered = 0; }
                     (o.s2c.len(), o.c2s.len())
                 };
                 let consumed_before = conn.consumed.load(Ordering::Relaxed);
                 let state_before = conn.client.state().map(|s| (s.session(), s.serial().0));
                 let data_before = conn.client.target().data.clone();
                 let t0 = tokio::time::Instant::now();
-                let res = tokio::time::timeout(HORIZON, conn.client.step()).await;
+                // `run()` is the library's own loop of steps; it returns Ok(())
+                // when the peer has closed the connection
+                let res = if is_run { tokio::time::timeout(3 * HORIZON, conn.client.run()).await }
+                    else { tokio::time::timeout(HORIZON, conn.client.step()).await };
                 let sim_ms = t0.elapsed().as_millis() as u64;
                 settle().await;
                 let result = match res {
@@ -1171,11 +1422,12 @@ async fn exec_async(cfg: Cfg, hist: Vec<Ev>) -> Exec {
                     Ok(Err(e)) => StepResult::Err(format!("{:?}: {}", e.kind(), e)),
                     Err(_) => StepResult::Hang,
                 };
-                let (mid_fired, timing_asked_in) = {
+                let (mid_fired, timing_asked_in, timing_calls) = {
                     let mut s = src.0.lock().unwrap();
                     s.end_step();
-                    (s.fired, s.timing_asked_in)
+                    (s.fired, s.timing_asked_in, s.timing_calls.clone())
                 };
+                let applied: Vec<ApplySnap> = conn.client.target().applied.clone();
                 let state_after = conn.client.state().map(|s| (s.session(), s.serial().0));
                 let data_after = conn.client.target().data.clone();
                 let reported_timing = conn.client.target().reported_timing;
@@ -1200,7 +1452,7 @@ async fn exec_async(cfg: Cfg, hist: Vec<Ev>) -> Exec {
                     let downgraded = o.s2c[m_s2c..].iter().any(|f| f.typ == 10 && f.sess == 4)
                         || o.c2s[m_c2s..].iter().zip(o.s2c[m_s2c..].iter().filter(|f| f.typ == 3)).any(|(qf, af)| af.ver < qf.ver);
                     let payloads = a.iter().filter(|t| matches!(t, 4 | 6 | 9 | 11)).count();
-                    let class = if a.contains(&8) { "serial-query->cache-reset->reset-query" }
+                    let class = if is_run { "run" } else if a.contains(&8) { "serial-query->cache-reset->reset-query" }
                         else if q.contains(&1) && payloads == 0 { "serial-query:empty-diff" }
                         else if q.contains(&1) { "serial-query:diff" }
                         else if q.contains(&2) { "reset-query" }
@@ -1211,7 +1463,55 @@ async fn exec_async(cfg: Cfg, hist: Vec<Ev>) -> Exec {
                 let transcript = match mid_fired { Some((k, call)) => format!("{transcript} [source moved at call {k}: {call}()]"), None => transcript };
                 let mut verdicts: Vec<(&'static str, String)> = Vec::new();
                 let mut negotiated = None;
-                if result == StepResult::Ok {
+                // Every completed update, one by one: the i-th apply belongs to
+                // the i-th End of Data delivered. (For a plain step this
+                // repeats the judgement below on the only update; for
+                // `Client::run` it is the judgement.) Also here: the origins
+                // the target was handed as v4 / v6 (`RouteOrigin::is_v4`)
+                // against the IPv4 / IPv6 Prefix PDUs of that exchange.
+                {
+                    let s = src.0.lock().unwrap();
+                    let o = conn.obs.lock().unwrap();
+                    let mut exchanges: Vec<(Frame, usize, usize)> = Vec::new();    // (End of Data, v4 PDUs, v6 PDUs)
+                    let (mut n4, mut n6) = (0, 0);
+                    for f in o.s2c[m_s2c..].iter().filter(|f| f.delivered) {
+                        match f.typ { 4 => n4 += 1, 6 => n6 += 1, 3 => { n4 = 0; n6 = 0 } 7 => exchanges.push((f.clone(), n4, n6)), _ => {} }
+                    }
+                    if applied.len() > exchanges.len() {
+                        verdicts.push(("C06.state.eod", format!("{} updates were applied but only {} End of Data PDUs were delivered (exchange: {transcript})", applied.len(), exchanges.len())));
+                    }
+                    for (i, (snap, (eod_f, n4, n6))) in applied.iter().zip(exchanges.iter()).enumerate() {
+                        if (snap.v4_ops, snap.v6_ops) != (*n4, *n6) {
+                            verdicts.push(("C06.api.accessors", format!("update #{i}: RouteOrigin::is_v4() sorted the origins into {} v4 / {} v6, the wire carried {n4} IPv4 and {n6} IPv6 Prefix PDUs", snap.v4_ops, snap.v6_ops)));
+                        }
+                        if !is_run { continue }
+                        let Some(e) = parse_eod(eod_f) else { continue };
+                        negotiated = Some(e.0);
+                        match s.record.get(&(e.1, e.2)).copied() {
+                            None => verdicts.push(("C06.data.equals_source", format!("run, update #{i}: End of Data names {:?}, a state the source never reported", (e.1, e.2)))),
+                            Some(set) => {
+                                let want = expected_data(set, e.0);
+                                if snap.data != want {
+                                    verdicts.push(("C06.data.equals_source", format!(
+                                        "run, update #{i}: state {:?} (source set #{set}) at version {}: target holds {} but the source reported {} (exchange: {transcript})",
+                                        (e.1, e.2), e.0, snap.data.render(), want.render())));
+                                }
+                                let judged = timing_calls.get(i) == Some(&(e.1, e.2));
+                                if e.0 >= 1 && judged && snap.timing != timing_of(set) {
+                                    verdicts.push(("C06.timing.equals_source", format!(
+                                        "run, update #{i}: version {}: client reports timing {:?}, source's is {:?} (exchange: {transcript})", e.0, snap.timing, timing_of(set))));
+                                }
+                            }
+                        }
+                    }
+                    if is_run && result == StepResult::Ok {
+                        let last = applied.len().checked_sub(1).and_then(|i| exchanges.get(i)).and_then(|x| parse_eod(&x.0)).map(|e| (e.1, e.2));
+                        if !applied.is_empty() && state_after != last {
+                            verdicts.push(("C06.state.eod", format!("run: client.state() = {state_after:?} but the End of Data of the last completed update named {last:?}")));
+                        }
+                    }
+                }
+                if result == StepResult::Ok && !is_run {
                     // ---------------- the oracles ----------------
                     let s = src.0.lock().unwrap();
                     match (state_after, eod) {
@@ -1249,9 +1549,10 @@ async fn exec_async(cfg: Cfg, hist: Vec<Ev>) -> Exec {
                     }
                 }
                 let changed = state_after != state_before || data_after != data_before;
-                let cut_fired = { let mut o = conn.obs.lock().unwrap(); o.cut_after = None; o.cut_fired };
-                let ok = result == StepResult::Ok && !cut_fired;
-                let class = if cut_fired { format!("{class}+connection-cut") } else { class };
+                let cut_fired = { let mut o = conn.obs.lock().unwrap(); o.cut_after = None; o.close_after_eods = None; o.cut_fired };
+                let class = if is_run { format!("run:{}-updates-completed", applied.len()) } else { class };
+                let ok = result == StepResult::Ok && !cut_fired && !is_run;
+                let class = if cut_fired && !is_run { format!("{class}+connection-cut") } else { class };
                 let class = match mid_fired { Some((_, call)) => format!("{class}+source-moved-at-{call}()"), None => class };
                 steps.push(StepObs { result, transcript, class, eod, state_after, data_after, reported_timing, sim_ms,
                     changed, verdicts, negotiated, downgraded });
@@ -1273,7 +1574,7 @@ async fn exec_async(cfg: Cfg, hist: Vec<Ev>) -> Exec {
     let (key, abs, m) = compute_key(&cfg, &src, &conn);
     machinery.extend(m);
     let odd_ops = (conn.client.target().odd_withdraw, conn.client.target().odd_announce);
-    let last_is_step = matches!(hist.last(), Some(Ev::Step | Ev::StepCut(_) | Ev::StepMid(..)));
+    let last_is_step = matches!(hist.last(), Some(Ev::Step | Ev::StepCut(_) | Ev::StepMid(..) | Ev::Run(_) | Ev::ErrorReport));
     let label = steps.last().filter(|_| last_is_step).map(|s| {
         let (class, res) = match &s.result {
             StepResult::Ok => (format!("step:ok:{}{}", if s.downgraded { "downgrade+" } else { "" }, s.class), "ok".to_string()),
@@ -1283,7 +1584,10 @@ async fn exec_async(cfg: Cfg, hist: Vec<Ev>) -> Exec {
         (class, format!("{res}: {}", s.transcript))
     });
     let key_hash = hash_key(&key);
-    Exec { key, key_hash, label, key_before_last, abs, steps, last_is_step, panics: Vec::new(), machinery, odd_ops }
+    let mut api_faults = std::mem::take(&mut src.0.lock().unwrap().api_faults);
+    api_faults.extend(std::mem::take(&mut conn.client.target_mut().api_faults));
+    api_faults.sort(); api_faults.dedup();
+    Exec { key, key_hash, label, key_before_last, abs, steps, last_is_step, panics: Vec::new(), machinery, odd_ops, api_faults }
 }
 
 /// Runs one history on fresh objects. A panic anywhere (client step, server
@@ -1322,6 +1626,7 @@ struct Slim {
     prefix_ok: bool,
     step: Option<SlimStep>,
     odd_ops: (u64, u64),
+    api_faults: Vec<String>,
 }
 
 struct SlimStep {
@@ -1338,8 +1643,8 @@ struct SlimStep {
 
 fn run_transition(cfg: &Cfg, hist: &[Ev], parent_hash: u64, seen: &Seen) -> Slim {
     match exec(cfg, hist) {
-        Err(p) => Slim { key: None, abs: Abs { cur: 0, chain_len: 0, epoch: 0, pending: 0 }, panics: p, machinery: vec![],
-            prefix_ok: true, step: None, odd_ops: (0, 0) },
+        Err(p) => Slim { key: None, abs: Abs { cur: 0, chain_len: 0, epoch: 0, pending: 0, established: false }, panics: p, machinery: vec![],
+            prefix_ok: true, step: None, odd_ops: (0, 0), api_faults: vec![] },
         Ok(mut e) => {
             let step = if e.last_is_step {
                 let (class, line) = e.label.take().unwrap();
@@ -1351,7 +1656,7 @@ fn run_transition(cfg: &Cfg, hist: &[Ev], parent_hash: u64, seen: &Seen) -> Slim
             let hk = HKey { h: e.key_hash, key: e.key };
             let key = if seen.contains(&hk) { None } else { Some(hk) };
             Slim { key, abs: e.abs, panics: vec![], machinery: e.machinery, prefix_ok: e.key_before_last == Some(parent_hash),
-                step, odd_ops: e.odd_ops }
+                step, odd_ops: e.odd_ops, api_faults: e.api_faults }
         }
     }
 }
@@ -1405,6 +1710,7 @@ fn main() {
                     if let Some(s) = e.steps.last().filter(|_| e.last_is_step) {
                         for (o, d) in &s.verdicts { ctx.fail(o, witness(&cfg, &hist), d.clone()) }
                     }
+                    for f in &e.api_faults { ctx.fail("C06.api.accessors", witness(&cfg, &hist), f.clone()) }
                 }
             },
         }
@@ -1415,7 +1721,7 @@ fn main() {
     // (13 / 14 measured): both tiers run to the fixpoint; the wall-clock cap
     // is a safety net that turns the run into a non-exhaustive one.
     let depth_bound: usize = std::env::var("C06_DEPTH").ok().and_then(|s| s.parse().ok()).unwrap_or(40);
-    let wall_cap = Duration::from_secs(ctx.tier.pick(34, 560));
+    let wall_cap = Duration::from_secs(ctx.tier.pick(33, 560));
     // update_nodiff(S) is update(S) followed by drop_diffs: it adds no
     // reachable state, only shorter paths; the quick tier leaves it out
     // (see `enabled`).
@@ -1470,7 +1776,20 @@ fn main() {
     }}
 
     let sp = ctx.space("rtr.histories",
-        "breadth-first over event histories {update(S) [thorough: + update_nodiff(S)] for the 7 other sets of an 8-set family, drop_diffs, restart, wrap, notify, client_step, client_step with the connection dying after 1/2/3 response PDUs, client_step with the source moving to another set (quick: 2 target sets, thorough: 3) on entry to the k-th source call of the exchange, k = 1..5} from every root (7 initial client states x client initial version 0..2 x proxy limit 0..2 [thorough: + answer-lower proxy where civ > limit] x diff style [thorough: chained with 2 and 3 retained diffs, net with 2; quick: chained with 2] x iteration order of the source's sets and diff steps {grouped by type, reverse, mixed so that an unsupported-type item precedes supported ones; withdraw-first / announce-first inside a diff step} [one order per version configuration chosen so that every negotiated version meets all three; thorough: full product for chained/2] x transport {roomy pipes; server->client pipe of 16, 12, 7 octets; 1-octet pipes both ways; client->server pipe of 7 octets — a pipe of k octets delivers at most k octets per read, so router-key info (91 octets) and ASPA provider lists (4-5 providers) reach the client in pieces} [rotated over the (version configuration, order) groups, one rotation per negotiated version]), states de-duplicated by canonical key, every transition re-executed on the real Client and Server; oracles judge against the state named in End of Data, never against the source's latest state; timing is judged only when the source was asked for its timing while in that very state (the library reads timing in a separate call, so an update landing between data and timing leaves the clause undefined); non-trivial = transitions whose client step completed (Ok) AND changed the client's state or data (each (state, event) pair is executed once, so they are distinct by construction)");
+        "breadth-first over event histories {update(S) [thorough: + update_nodiff(S)] for the 7 other sets of an 8-set family, drop_diffs, restart, wrap, notify, client_step, client_step with the connection dying after 1/2/3 response PDUs, client_step with the source moving to another set (quick: 2 target sets, thorough: 3) on entry to the k-th source call of the exchange, k = 1..5} from every root (7 initial client states x client initial version 0..2 x proxy limit 0..2 [thorough: + answer-lower proxy where civ > limit] x diff style [thorough: chained with 2 and 3 retained diffs, net with 2; quick: chained with 2] x iteration order of the source's sets and diff steps {grouped by type, reverse, mixed so that an unsupported-type item precedes supported ones; withdraw-first / announce-first inside a diff step} [one order per version configuration chosen so that every negotiated version meets all three; thorough: full product for chained/2] x transport {roomy pipes; server->client pipe of 16, 12, 7 octets; 1-octet pipes both ways; client->server pipe of 7 octets — a pipe of k octets delivers at most k octets per read, so router-key info (91 octets) and ASPA provider lists (4-5 providers) reach the client in pieces} [rotated over the (version configuration, order) groups, one rotation per negotiated version]), states de-duplicated by canonical key, every transition re-executed on the real Client and Server; oracles judge against the state named in End of Data, never against the source's latest state; timing is judged only when the source was asked for its timing while in that very state (the library reads timing in a separate call, so an update landing between data and timing leaves the clause undefined); the civ=2 roots with limit 0 and 2 build the client with Client::new, all others with Client::with_initial_version; every payload handed to the target or served by the source also goes through the accessor sweep (payload_type, is_v4, Aspa::key, Action predicates, into_bytes, asn_count, pdu into_key_info / into_providers, State::inc / Serial::add / State::new*), compared with sibling accessors only; non-trivial = transitions whose client step completed (Ok) AND changed the client's state or data (each (state, event) pair is executed once, so they are distinct by construction)");
+
+    // `Afi`, the RTR address-family octet: not used by client or server, swept
+    // over all 256 values against its own siblings.
+    {
+        use rpki::rtr::payload::Afi;
+        for x in 0..=255u8 {
+            let a = Afi::from_u8(x);
+            let ok = a.into_u8() == x && a.is_ipv4() != a.is_ipv6() && (a == Afi::ipv4()) == (x == Afi::ipv4().into_u8())
+                && (a == Afi::ipv6()) == (x == Afi::ipv6().into_u8()) && Afi::ipv4().is_ipv4() && Afi::ipv6().is_ipv6()
+                && (a.is_ipv4() == Afi::ipv4().is_ipv4() || a.is_ipv6() == Afi::ipv6().is_ipv6());
+            if !ok { ctx.fail("C06.api.afi", format!("afi={x}"), "Afi::from_u8 / into_u8 / is_ipv4 / is_ipv6 / ipv4() / ipv6() disagree") }
+        }
+    }
 
     let start = WallInstant::now();
     let mut st = Stats { transitions: 0, executions: 0, nontrivial: 0, outcomes: BTreeMap::new(),
@@ -1510,7 +1829,7 @@ fn main() {
         // (safety net; deeper levels replay longer histories, hence the factor)
         if depth > 1 {
             let per = start.elapsed().as_secs_f64() / (st.executions.max(1) as f64);
-            let est = per * tasks.len() as f64 * 1.3;
+            let est = per * tasks.len() as f64 * 1.6;
             if start.elapsed().as_secs_f64() + est > wall_cap.as_secs_f64() {
                 cut = "wall-clock budget (level not started)";
                 break;
@@ -1531,7 +1850,8 @@ fn main() {
             let ev_class = match ev { Ev::Update(_) => "event:update", Ev::UpdateNoDiff(_) => "event:update_nodiff", Ev::DropDiffs => "event:drop_diffs",
                 Ev::Restart => "event:restart", Ev::Wrap => "event:wrap", Ev::Notify => "event:notify", Ev::Step => "event:client_step",
                 Ev::StepCut(_) => "event:client_step_with_connection_cut",
-                Ev::StepMid(..) => "event:client_step_with_source_update_in_flight" };
+                Ev::StepMid(..) => "event:client_step_with_source_update_in_flight",
+                Ev::Run(_) => "event:client_run_two_updates", Ev::ErrorReport => "event:client_error_report" };
             bump(&mut st.outcomes, ev_class);
             if !r.panics.is_empty() {
                 bump(&mut st.outcomes, "step:panic");
@@ -1544,6 +1864,10 @@ fn main() {
                 ctx.machinery_error(format!("replay diverged: prefix of {} does not reach the recorded state", witness(&n.cfg, &hist())));
             }
             let mut violated = false;
+            for f in &r.api_faults {
+                violated = true;
+                ctx.fail("C06.api.accessors", witness(&n.cfg, &hist()), f.clone());
+            }
             if let Some(s) = &r.step {
                 st.max_sim_ms = st.max_sim_ms.max(s.sim_ms);
                 bump(&mut st.outcomes, &s.class);
@@ -1645,7 +1969,9 @@ fn main() {
     sp.set("ok_steps_by_iteration_order_and_version", json!(st.ok_by_order));
     sp.set("transports(client->server capacity, server->client capacity)", json!(TRANSPORTS.iter().map(|t| format!("{}: {:?}", t.name(), t.caps())).collect::<Vec<_>>()));
     sp.set("ok_steps_by_transport_and_version", json!(st.ok_by_link));
-    sp.set("events", json!(["U<S> update (diff retained)", "X<S> update (diff history dropped)", "D drop diffs", "R restart (new session)", "W serial := 2^32-1", "N notify", "S client step", "C<k> client step, connection dies after k PDUs of the response", "M<k>:<S> client step, source moves to set S on entry to the k-th call the server makes on it (ready/notify/full/diff/timing)"]));
+    sp.set("events", json!(["U<S> update (diff retained)", "X<S> update (diff history dropped)", "D drop diffs", "R restart (new session)", "W serial := 2^32-1", "N notify", "S client step", "C<k> client step, connection dies after k PDUs of the response", "M<k>:<S> client step, source moves to set S on entry to the k-th call the server makes on it (ready/notify/full/diff/timing)",
+        "L<S> Client::run until the peer closes the connection after two completed updates, source moves to set S between them; every completed update judged",
+        "E Client::send_error(e) and Client::apply(update rejected with e) on a connection each: same Error Report on the wire, client unchanged"]));
     sp.set("bounds", json!({"pending_notifies": MAX_PENDING_NOTIFY, "connection_cut_after_pdus": CUTS, "mid_step_update_at_source_call": MID_CALLS, "simulated_horizon_s": HORIZON.as_secs()}));
     sp.set("distinct_outcomes(step transcripts)", json!(st.transcripts.len()));
     sp.set("ok_steps_by_version_config", json!(st.ok_by_pair));
